@@ -52,10 +52,17 @@ def main():
         finally:
             sh("git", "-C", "/repo", "worktree", "remove", "--force", wt)
             sh("git", "-C", "/repo", "worktree", "prune")
+    # the report is always rebuilt from every seed's meta.json
     with open(os.path.join(SEEDED, "RESULTS.md"), "w") as f:
-        f.write("# Seeded defects vs. the quick checks (repo HEAD %s)\n\n| seed | property | result | violated clauses reported | wall s |\n|---|---|---|---|---|\n" % head)
-        for r in rows:
-            f.write("| %s | %s | %s | %s | %s |\n" % r)
+        f.write("# Seeded defects vs. the quick checks\n\nEach seed was applied to a scratch worktree of /repo (never /repo itself) and its own property's quick check was "
+                "run against it (VERIF_REPO).\n\n| seed | property | repo HEAD | result | violated clauses reported | wall s | needs |\n|---|---|---|---|---|---|---|\n")
+        for name in sorted(d for d in os.listdir(SEEDED) if os.path.isdir(os.path.join(SEEDED, d))):
+            m = json.load(open(os.path.join(SEEDED, name, "meta.json")))
+            db = m.get("detected_by") or {}
+            own = next((x for x in db.get("results", []) if x["check"] == m["breaks_property"]), None)
+            res = "not run" if own is None else ("DETECTED" if own["exit"] == 1 else "missed (exit %d)" % own["exit"])
+            f.write("| %s | %s | %s | %s | %s | %s | %s |\n" % (name, m["breaks_property"], db.get("repo_head", ""), res, ", ".join(own["clauses"]) if own else "",
+                                                          own["wall_s"] if own else "", (m.get("needs_to_manifest") or "").replace("|", "/").replace("\n", " ")[:160]))
     print("done")
 
 
